@@ -263,12 +263,7 @@ Hypothesis VP : valid_params n T.
 Notation gstep := (gstep n T c).
 Notation reach := (reach n T c).
 
-Definition evt_enc (sd wt : bool) : Z :=
-  match sd, wt with false, false => 0 | true, false => 1 | false, true => UMAX32 | true, true => 0 end.
 Definition claimed (s : gst) : Z := Z.min (index s) n.
-(* the values begun / ended must have for an index whose owner stands at p *)
-Definition bval (p : pc) (i : Z) : Z := match p with PCall j _ => if j =? i then 0 else 1 | _ => 1 end.
-Definition eval_ (p : pc) (i : Z) : Z := match p with PCall j _ | PInCall j _ => if j =? i then 0 else 1 | _ => 1 end.
 
 Definition index_inv (s : gst) (i : Z) : Prop :=
   if (0 <=? i) && (i <? claimed s)
@@ -288,10 +283,6 @@ Definition at_pc (s : gst) (t : Z) : Prop :=
 Definition thread_inv (s : gst) (t : Z) : Prop :=
   at_pc s t /\ (over (pcs s t) = 1 -> n <= index s) /\ (pcs s t <> PIdle <-> In t (parts s)).
 
-Definition past_wait (p : pc) : bool :=
-  match p with PWaitLoad | PWaitFutex | PWaitSleep | PDec | PDone | PRet => true | _ => false end.
-Definition past_event (p : pc) : bool := match p with PDec | PDone | PRet => true | _ => false end.
-Definition is_ret (p : pc) : bool := match p with PRet => true | _ => false end.
 
 Definition sig_clause (sg : option Z) (td : Z) (sd : bool) (f : Z -> pc) : Prop :=
   match sg with
